@@ -104,6 +104,8 @@ type Profile struct {
 	// never part of the exhaustive-within-bound claim.
 	ContinueRoots int
 	ContinueDepth int
+	// MaxFrontierBytes bounds the encoded states kept for the next level (default 6 GiB)
+	MaxFrontierBytes int64
 	// PostStep, if set, is called on every transition after the oracles (differential checks).
 	PostStep func(c *Ctx, pre *world.World, act world.Action, post *world.World, legs []*world.Leg)
 }
@@ -251,12 +253,17 @@ func Run(p *Profile) (*Result, error) {
 	if maxFrontier == 0 {
 		maxFrontier = 4_000_000
 	}
+	maxFrontierBytes := p.MaxFrontierBytes
+	if maxFrontierBytes == 0 {
+		maxFrontierBytes = 6 << 30
+	}
 	totalDepth := p.Depth
 	if p.ContinueRoots > 0 {
 		totalDepth += p.ContinueDepth
 	}
 	for depth := 0; depth < totalDepth && len(frontier) > 0; depth++ {
 		next := make([][]*node, workers)
+		var nextBytes int64
 		// the last exhaustive level keeps only the candidates for continuation roots
 		selecting := p.ContinueRoots > 0 && depth+1 >= p.Depth && depth+1 < totalDepth
 		roots := make([][]*node, workers)
@@ -334,10 +341,11 @@ func Run(p *Profile) (*Result, error) {
 									roots[wi] = r
 								}
 							} else if depth+1 < totalDepth && atomic.LoadInt32(&noDeeper) == 0 {
-								if ns > maxFrontier || statesSoFar+ns > maxStates {
+								if ns > maxFrontier || statesSoFar+ns > maxStates || atomic.LoadInt64(&nextBytes) > maxFrontierBytes {
 									atomic.StoreInt32(&noDeeper, 1)
 								} else {
 									nn.enc, nn.meta = post.Encode(), post.Meta
+									atomic.AddInt64(&nextBytes, int64(len(nn.enc))+160)
 									next[wi] = append(next[wi], nn)
 								}
 							}
@@ -382,7 +390,12 @@ func Run(p *Profile) (*Result, error) {
 		}
 		if atomic.LoadInt32(&noDeeper) != 0 && depth+1 < totalDepth {
 			res.Exhaustive = false
-			res.CapHit = fmt.Sprintf("state/frontier cap (%d states, %d per level) hit: the %d new states of depth %d were all checked but not expanded", maxStates, maxFrontier, newStates, depth+1)
+			res.CapHit = fmt.Sprintf("state/frontier cap (%d states, %d per level, %d MiB of stored frontier) hit: the %d new states of depth %d were all checked but not expanded", maxStates, maxFrontier, maxFrontierBytes>>20, newStates, depth+1)
+			for _, l := range next {
+				for _, nn := range l {
+					nn.enc = nil
+				}
+			}
 			break
 		}
 		frontier = frontier[:0]
